@@ -4,8 +4,8 @@ import NasdaqModel.Props.C11
 /-
 C11 — login either yields a working session or fails cleanly: **whole attempts**.
 
-`Props/C11.lean` has the step lemmas (one `step` from a state satisfying local hypotheses).  Here every clause of the property is a
-theorem about the trace and the state reached by an **arbitrary event list from the fresh session** (`reach cfg evs`): any reply
+`Props/C11.lean` has the step lemmas (one `step` from a state satisfying local hypotheses).  Here every clause of the property is
+proved of the trace and the state reached by an **arbitrary event list from the fresh session** (`reach cfg evs`): any reply
 stream, segmentation, disconnect offset, cancellation phase, any interleaving with unrelated user calls, other user tasks, monitors
 tripping, data arriving before and after — for every configuration (`fixLogin` is a field of `cfg`; the machine's login procedure is
 the same for soup and FIX after commits f00cdb5 / 3767366 / f58394d, so every theorem holds for both).
